@@ -282,7 +282,18 @@ func tryReplay(v *Verifier, o *Obl, q *Query, rp map[string]interface{}) bool {
 	}
 	rp["replay_pkg_dir"] = strings.TrimPrefix(plan.pkg.Path(), repoModule+"/")
 	rp["replay_repo"] = v.repo
-	const bound = 8
+	for _, bound := range []int{8, 40} {
+		if tryReplayBound(v, o, q, rp, plan, smt, dir, pre, oracle, bound) {
+			return true
+		}
+		if st, _ := rp["refutation_status"].(string); st == "sat" {
+			return false
+		}
+	}
+	return false
+}
+
+func tryReplayBound(v *Verifier, o *Obl, q *Query, rp map[string]interface{}, plan *replayPlan, smt, dir string, pre []string, oracle string, bound int) bool {
 	var want, bt []string
 	seqWant := func(term string) {
 		want = append(want, fmt.Sprintf("(len_Y %s)", term))
@@ -657,18 +668,7 @@ func genReplayTest(plan *replayPlan, assigns, pre []string, oracle string, o *Ob
 	var b strings.Builder
 	f := plan.f
 	fmt.Fprintf(&b, "// generated by govc: replay of obligation %s\npackage %s\n\nimport (\n\t\"bytes\"\n\t\"errors\"\n\t\"fmt\"\n\t\"net\"\n\t\"reflect\"\n\t\"testing\"\n\t\"time\"\n", o.Name, plan.pkg.Name())
-	var imps []string
-	for p := range plan.imports {
-		if p == "bytes" || p == "errors" || p == "fmt" || p == "net" || p == "reflect" || p == "testing" || p == "time" {
-			continue
-		}
-		imps = append(imps, p)
-	}
-	sort.Strings(imps)
-	for _, p := range imps {
-		fmt.Fprintf(&b, "\t%q\n", p)
-	}
-	b.WriteString(")\n\n")
+	b.WriteString("//IMPORTS\n)\n\n")
 	b.WriteString(replayRuntime)
 	b.WriteString("\nfunc TestGovcReplay(t *testing.T) {\n")
 	for _, s := range plan.setup {
@@ -709,7 +709,24 @@ func genReplayTest(plan *replayPlan, assigns, pre []string, oracle string, o *Ob
 	b.WriteString("\t}()\n")
 	fmt.Fprintf(&b, "\tviolated := %s\n", oracle)
 	b.WriteString("\tif violated {\n\t\tfmt.Printf(\"REPLAY-RESULT: violated (panicked=%v %v)\\n\", panicked, panicVal)\n\t\tt.Fatalf(\"obligation violated on the real code\")\n\t}\n\tfmt.Println(\"REPLAY-RESULT: held\")\n}\n")
-	return b.String()
+	text := b.String()
+	body := text[strings.Index(text, "func TestGovcReplay"):]
+	var imps []string
+	for p := range plan.imports {
+		if p == "bytes" || p == "errors" || p == "fmt" || p == "net" || p == "reflect" || p == "testing" || p == "time" {
+			continue
+		}
+		name := p[strings.LastIndex(p, "/")+1:]
+		if strings.Contains(body, name+".") {
+			imps = append(imps, p)
+		}
+	}
+	sort.Strings(imps)
+	var ib strings.Builder
+	for _, p := range imps {
+		fmt.Fprintf(&ib, "\t%q\n", p)
+	}
+	return strings.Replace(text, "//IMPORTS\n", ib.String(), 1)
 }
 
 func variadicArgs(f *ssa.Function, args []string) []string {
